@@ -167,7 +167,8 @@ def make_case(seed, idx, tier):
         "genomes_hex": [[float(x).hex() for x in p] for p in pts],
         "fits_hex": [float(f).hex() for f in fits],
         "maximize": maximize,
-        "factor": rng.choice([0.5, 1.0, 2.0, 3.0, 4.0, 1.5, 0.0]),
+        # (idx % 40 == 17: a factor so large that factor x mean is not a finite number - the best one is still a seed, nobody else is)
+        "factor": (rng.choice([float("inf"), 1e308]) if idx % 40 == 17 else rng.choice([0.5, 1.0, 2.0, 3.0, 4.0, 1.5, 0.0])),
         "trunc": trunc,
         "n_problem_objects": rng.choice([1, 1, 2, 3]),
         "idx": idx,
@@ -214,6 +215,11 @@ def _cluster(genomes, fits, maximize, factor, trunc, n_objs=1, int_best=False, p
                     pass
         out = nbc.cluster()
         dists = list(nbc.distances)
+        if peek:
+            # ... and cluster() asked again on the same object answers the same
+            again = nbc.cluster()
+            if [id(o) for o in again] != [id(o) for o in out]:
+                raise AssertionError("second cluster() call on the same object returned a different result")
     idx_of = {id(i): k for k, i in enumerate(inds)}
     kept_idx = [idx_of.get(id(o), -1) for o in nbc.individuals]  # the (public) sorted and truncated list the object works on
     return [idx_of[id(o)] for o in out], dists, kept_idx
